@@ -57,6 +57,7 @@ type c07Query struct {
 	resps []serf.NodeResponse
 	ackClosed, respClosed bool
 	closedByApp           bool
+	pastDeadline          bool
 	sinceClose            map[string]bool // reply payloads injected after the application closed the query
 }
 
@@ -205,6 +206,22 @@ func execC07(r *Run) {
 				if q.closedByApp && s.S == "resp" {
 					q.sinceClose[string(m.Payload)] = true
 				}
+				// a reply that arrives once the deadline has passed finds a finished query,
+				// whether or not the timer that closes the streams has run yet
+				if q.qr != nil && time.Now().After(q.qr.Deadline()) {
+					switch s.S {
+					case "resp":
+						if q.sinceClose == nil {
+							q.sinceClose = map[string]bool{}
+						}
+						q.sinceClose[string(m.Payload)] = true
+						q.pastDeadline = true
+						r.Fault("reply-after-deadline")
+					case "ack":
+						m.From = "late-" + s.T
+						r.Fault("reply-after-deadline")
+					}
+				}
 				nd.Del.NotifyMsg(wEnc(mtQueryResponse, m))
 			}
 		}))
@@ -268,11 +285,16 @@ func execC07(r *Run) {
 		if !q.ack && q.qr.AckCh() != nil {
 			r.Fail("unexpected-ack-stream", "C07 ack-stream", "query %s did not request acks but has an ack stream", q.tag)
 		}
-		if q.closedByApp {
-			// replies that were injected only after Close() must never have come through
+		for _, a := range q.acks {
+			if strings.HasPrefix(a, "late-") {
+				r.Fail("reply-after-finish", "C07 after-deadline", "query %s: an acknowledgement that arrived after the query's deadline (from %s) came through its stream", q.tag, a)
+			}
+		}
+		if q.closedByApp || q.pastDeadline {
+			// replies that were injected only after Close() / after the deadline must never have come through
 			for _, nr := range q.resps {
 				if q.sinceClose[string(nr.Payload)] {
-					r.Fail("reply-after-close", "C07 after-close", "query %s was closed by the application, yet a response injected afterwards (%q) came through its stream", q.tag, nr.Payload)
+					r.Fail("reply-after-close", "C07 after-close", "query %s had finished (closed by the application: %v; deadline passed: %v), yet a response injected afterwards (%q) came through its stream", q.tag, q.closedByApp, q.pastDeadline, nr.Payload)
 				}
 			}
 		}
